@@ -290,6 +290,8 @@ def run_check(prop, tiers, assumptions, tier, budget_s=None):
             "field_sweeps_one_mutant_per_signature_of_a_graph":
                 int(stats["sweeps"]),
             "field_sweep_mutants": int(stats["sweep_mutants"]),
+            "derive_sweep_objects_tagged_after_caching_vs_pristine_twin":
+                int(stats["derive_sweep_objects"]),
             "distinct_node_kind_field_pairs": len(muts),
             "by_node_kind_and_field": muts,
         },
